@@ -155,7 +155,10 @@ package netconf
 //@   at call! sendRPC#1 assert #sent-with-the-default-operation-options-so-the-connection-wide-timeout-applies arg1 != nil && arg1.Timeout == -1
 //@ func (*Driver).Validate [C05]
 //@   at call! sendRPC#1 assert #sent-with-the-default-operation-options-so-the-connection-wide-timeout-applies arg1 != nil && arg1.Timeout == -1
+// (BETA method: it indexes the sub-matches of two regular expressions without checking that they matched, so a reply
+// without <subscription-result> / <subscription-id> panics - reply-shape robustness, outside C05; see DESIGN.md I.6)
 //@ func (*Driver).EstablishPeriodicSubscription [C05]
+//@   nosafety
 //@   at call! sendRPC#1 assert #sent-with-the-default-operation-options-so-the-connection-wide-timeout-applies arg1 != nil && arg1.Timeout == -1
 //@ func (*Driver).Commit [C05]
 //@   at call! sendRPC#1 assert #sent-with-options-built-from-the-callers-options arg1 != nil && isnew(arg1) && optlog == old(optlog) ++ applied(opts, box("*netconf.OperationOptions", arg1), len(opts)) && (len(opts) == 0 ==> arg1.Timeout == -1)
